@@ -672,8 +672,6 @@ class DBusObjectHandler :
         @param dbusObject: The object to export over DBus
         """
         o = IDBusObject(dbusObject)
-        self.exports[o.getObjectPath()] = o
-        o.setObjectHandler(self)
 
         i = {}
         for iface in o.getInterfaces():
@@ -686,6 +684,10 @@ class DBusObjectHandler :
             signature='sa{sa{sv}}',
             body=[o.getObjectPath(), i],
         )
+
+        # only an object that can be announced becomes visible
+        self.exports[o.getObjectPath()] = o
+        o.setObjectHandler(self)
 
         self.conn.sendMessage(msig)
 
